@@ -529,7 +529,7 @@ func writeEvidence(p *Program, cfg *PropConfig, tier string, res *PropResult, al
 		level = "proof"
 	}
 	cov := map[string]any{
-		"obligations":                    len(all) - len(undecided),
+		"obligations":                    len(all) - len(undecided) - len(knownPrinted),
 		"obligations_generated":          len(all),
 		"discharged":                     len(discharged),
 		"obligation_instances":           instances,
